@@ -1,0 +1,8 @@
+//go:build verif
+
+package node
+
+import "github.com/evstack/ev-node/block"
+
+// VerifBlockManager exposes the block manager of a full node (verification hook).
+func (n *FullNode) VerifBlockManager() *block.Manager { return n.blockManager }
